@@ -75,9 +75,8 @@ def releaseTail : Nat → List Char → List Char × List Char
   | fuel + 1, s =>
     match s with
     | '.' :: r =>
-      let (d, r') := spanDigits r
-      if d.isEmpty then ([], s)
-      else let (t, r'') := releaseTail fuel r'; ('.' :: d ++ t, r'')
+      if (spanDigits r).1.isEmpty then ([], s)
+      else ('.' :: (spanDigits r).1 ++ (releaseTail fuel (spanDigits r).2).1, (releaseTail fuel (spanDigits r).2).2)
     | _ => ([], s)
 
 /-- `sep? label sep? digits?` with `label` the first matching alternative;
@@ -94,44 +93,64 @@ def labelled (alts : List (List Char)) (s : List Char) : Option (List Char × Li
     some (l, d, if d.isEmpty then optSep r else r')
   | none => none
 
-/-- The post group: `-digits` first, else the labelled form. -/
+/-- First alternative of the post group: `-digits`. -/
+def postDash : List Char → Option (List Char × List Char)
+  | '-' :: r => if (spanDigits r).1.isEmpty then none else some ((spanDigits r).1, (spanDigits r).2)
+  | _ => none
+
+/-- The post group: `-digits` first, else the labelled form; returns
+    (post_n1, post_n2, rest). -/
 def postGroup (s : List Char) : Option (List Char × List Char × List Char) :=
-  -- returns (post_n1, post_n2, rest)
-  let alt1 : Option (List Char × List Char) :=
-    match s with
-    | '-' :: r => let (d, r') := spanDigits r; if d.isEmpty then none else some (d, r')
-    | _ => none
-  match alt1 with
+  match postDash s with
   | some (d, r) => some (d, [], r)
   | none =>
     match labelled postAlts s with
     | some (_, d, r) => some ([], d, r)
     | none => none
 
+/-- The optional pre group: (label, number, rest); nothing consumed when it does not match. -/
+def preGroup (s : List Char) : List Char × List Char × List Char :=
+  match labelled preAlts s with
+  | some (l, n, r) => (l, n, r)
+  | none => ([], [], s)
+
+/-- The optional post group: (post_n1, post_n2, rest). -/
+def postGroupOpt (s : List Char) : List Char × List Char × List Char :=
+  match postGroup s with
+  | some (a, b, r) => (a, b, r)
+  | none => ([], [], s)
+
+/-- The optional dev group: its number. -/
+def devGroup (s : List Char) : List Char :=
+  match labelled devAlts s with
+  | some (_, n, _) => n
+  | none => []
+
+/-- The expression from the release segment on: release, pre, post, dev. -/
+def matchRest (epoch relStart : List Char) : Groups :=
+  let dr := spanDigits relStart
+  let tr := releaseTail dr.2.length dr.2
+  let pre := preGroup tr.2
+  let post := postGroupOpt pre.2.2
+  { epoch := epoch, release := dr.1 ++ tr.1, preL := pre.1, preN := pre.2.1,
+    postN1 := post.1, postN2 := post.2.1, devN := devGroup post.2.2 }
+
+/-- `(?:(?P<epoch>[0-9]+)!)?`: the first digit run `d0` is the epoch only if
+    `!` and then a digit follow (`r0` is the text after `d0`); returns the
+    epoch group and where the release segment starts. -/
+def epochSplit (s d0 r0 : List Char) : List Char × List Char :=
+  match r0 with
+  | '!' :: r1 => (match r1 with
+      | c :: _ => if isDigit c then (d0, r1) else ([], s)
+      | [] => ([], s))
+  | _ => ([], s)
+
 /-- Match the expression at the start of `s` (after the optional `v`). -/
 def matchHere (s : List Char) : Option Groups :=
-  let (d0, r0) := spanDigits s
-  if d0.isEmpty then none else
-  -- epoch only if `!` and then a digit follow
-  let (epoch, relStart) :=
-    match r0 with
-    | '!' :: r1 => (match r1 with
-        | c :: _ => if isDigit c then (d0, r1) else ([], s)
-        | [] => ([], s))
-    | _ => ([], s)
-  let (d1, r1) := spanDigits relStart
-  let (t, r2) := releaseTail r1.length r1
-  let release := d1 ++ t
-  let (preL, preN, r3) := match labelled preAlts r2 with
-    | some (l, n, r) => (l, n, r)
-    | none => ([], [], r2)
-  let (p1, p2, r4) := match postGroup r3 with
-    | some (a, b, r) => (a, b, r)
-    | none => ([], [], r3)
-  let devN := match labelled devAlts r4 with
-    | some (_, n, _) => n
-    | none => []
-  some { epoch := epoch, release := release, preL := preL, preN := preN, postN1 := p1, postN2 := p2, devN := devN }
+  let d := spanDigits s
+  if d.1.isEmpty then none else
+  let er := epochSplit s d.1 d.2
+  some (matchRest er.1 er.2)
 
 /-- Leftmost match: the first position where a digit stands, or a `v`
     directly followed by a digit. -/
@@ -167,6 +186,9 @@ def normLabel (l : List Char) : Option (List Char) :=
   else if l = ['r', 'c'] || l = ['c'] || l = ['p', 'r', 'e'] || l = ['p', 'r', 'e', 'v', 'i', 'e', 'w'] then some ['r', 'c']
   else none
 
+/-- The `pre_l` case of `Parse`: an empty group is skipped. -/
+def labelOf (l : List Char) : Option (List Char) := if l.isEmpty then some [] else normLabel l
+
 /-- A group that is empty is skipped (field keeps its zero value). -/
 def atoiOpt (s : List Char) : Option Int := if s.isEmpty then some 0 else atoi s
 
@@ -175,7 +197,7 @@ def parse (s : List Char) : Option Ver := do
   let g ← findMatch s
   let epoch ← atoiOpt g.epoch
   let release ← atoiAll (splitOn '.' g.release)
-  let label ← if g.preL.isEmpty then some [] else normLabel g.preL
+  let label ← labelOf g.preL
   let preN ← atoiOpt g.preN
   let post1 ← atoiOpt g.postN1
   let post2 ← atoiOpt g.postN2
